@@ -96,9 +96,23 @@ CHECKS['C08'] = {
                  'metamorphic materialise-and-rerun oracle',
 }
 
+CHECKS['C09'] = {
+    'text': 'Bounded symbolic model checking of parameter binding (statement templates with 1-3 positional or named '
+            'placeholders in targets, WHERE, ORDER BY expressions, HAVING and subqueries; symbolic parameter values; '
+            'oracle: the same parsed statement with the placeholders replaced by constants in textual order, run by '
+            'the real code), of constant folding (every operator overload and a set of functions: folded constant '
+            'operands vs the same values read from columns), and of history independence (statement pairs on one '
+            'cursor, re-execution of the same parsed tree, executemany, against fresh connections).',
+    'design_ref': 'DESIGN.md section 5, C09',
+    'note': _COMMON_NOTE + ' Histories are pairs/triples of executions from a fixed statement list; parameters are '
+            'symbolic ints or NULL (one identity template per literal type).',
+    'technique': 'symbolic execution (CrossHair/z3) of Compiler.compile / Cursor.execute; substitute-constants and '
+                 'fresh-connection oracles',
+}
+
 NOT_APPLICABLE = {
     pid: 'check under construction in this session; not claimed yet'
-    for pid in [ 'C04', 'C05', 'C06', 'C07', 'C09', 'C11', 'C12', 'C13',
+    for pid in [ 'C04', 'C05', 'C06', 'C07', 'C11', 'C12', 'C13',
                 'C14', 'C15', 'C16', 'C17', 'C18', 'C19', 'C20']
 }
 
